@@ -165,16 +165,18 @@ Definition u_delete (T : tree) (q : path) : option tree :=
   | _ => if t_has T q then Some (t_cut q T) else None
   end.
 
-(** Source must exist, destination must not, destination not inside the source
-    (h5py would detach the subtree; IH5 does not terminate: outside the model). *)
+(** Source must exist, destination must not.  What is copied is a SNAPSHOT of the source
+    taken before the missing intermediate groups of the destination are created, so a copy
+    to a place strictly below the source itself ([copy a a/b/c]) is well defined (as in
+    HDF5 and in [IH5/Overlay.v] [t_copy]). *)
 Definition u_copy (T : tree) (s d : path) : option tree :=
   match s, d with
   | [], _ | _, [] => None
   | _, _ =>
-      if is_prefix s d || negb (t_has T s) || t_has T d then None
+      if negb (t_has T s) || t_has T d then None
       else match t_mkgroups T (parent d) with
            | None => None
-           | Some T1 => Some (T1 ++ t_rename s d (t_sub s T1))
+           | Some T1 => Some (T1 ++ t_rename s d (t_sub s T))
            end
   end.
 
